@@ -156,10 +156,15 @@ pub fn decode_info(bytes: &[u8]) -> Result<(Decoded, DecodeInfo), String> {
 				if x >= (1u64 << b.level) || y >= (1u64 << b.level) {
 					return Err(format!("tile {}/{x}/{y} outside its level", b.level));
 				}
-				if !seen_ranges.insert((b.offset + off, len)) {
+				// a tile's blob lies inside its block: offsets are relative to the block start and non-negative
+				let abs = b.offset.checked_add(off).ok_or_else(|| format!("tile {}/{x}/{y}: blob offset {off} is not inside its block", b.level))?;
+				if off.checked_add(len).map(|e| e > b.blobs_len).unwrap_or(true) {
+					return Err(format!("tile {}/{x}/{y}: blob [{off}, +{len}] is not inside its block of {} bytes", b.level, b.blobs_len));
+				}
+				if !seen_ranges.insert((abs, len)) {
 					info.shared_ranges += 1;
 				}
-				let data = slice(bytes, b.offset + off, len)?;
+				let data = slice(bytes, abs, len)?;
 				if d.tiles.insert((b.level, x as u32, y as u32), data.to_vec()).is_some() {
 					return Err(format!("tile {}/{x}/{y} defined twice", b.level));
 				}
@@ -180,14 +185,16 @@ pub struct EncOpts {
 	pub no_meta: bool,
 	/// bytes of padding between tile blobs
 	pub gaps: bool,
+	/// a tile whose bytes occur inside a blob already stored in the block is addressed as a range inside that blob
+	pub nested_ranges: bool,
 }
 
 impl EncOpts {
 	pub fn random(rng: &mut Rng) -> EncOpts {
-		EncOpts { partial_blocks: rng.chance(0.6), shuffle_blocks: rng.chance(0.6), shuffle_tiles: rng.chance(0.5), dedup: rng.chance(0.5), no_meta: rng.chance(0.25), gaps: rng.chance(0.3) }
+		EncOpts { partial_blocks: rng.chance(0.6), shuffle_blocks: rng.chance(0.6), shuffle_tiles: rng.chance(0.5), dedup: rng.chance(0.5), no_meta: rng.chance(0.25), gaps: rng.chance(0.3), nested_ranges: rng.chance(0.4) }
 	}
 	pub fn plain() -> EncOpts {
-		EncOpts { partial_blocks: false, shuffle_blocks: false, shuffle_tiles: false, dedup: false, no_meta: false, gaps: false }
+		EncOpts { partial_blocks: false, shuffle_blocks: false, shuffle_tiles: false, dedup: false, no_meta: false, gaps: false, nested_ranges: false }
 	}
 }
 
@@ -209,6 +216,14 @@ pub fn geo_bounds(ts: &TileSet) -> [f64; 4] {
 }
 
 pub fn encode(ts: &TileSet, o: &EncOpts, rng: &mut Rng) -> Vec<u8> {
+	// any window size is the encoder's choice
+	comp::set_brotli_window(rng.range(10, 24) as u32);
+	let out = encode_inner(ts, o, rng);
+	comp::set_brotli_window(22);
+	out
+}
+
+fn encode_inner(ts: &TileSet, o: &EncOpts, rng: &mut Rng) -> Vec<u8> {
 	let format = super::format_name(ts.format);
 	let mut out = vec![0u8; 66];
 	// metadata
@@ -257,12 +272,20 @@ pub fn encode(ts: &TileSet, o: &EncOpts, rng: &mut Rng) -> Vec<u8> {
 			rng.shuffle(&mut torder);
 		}
 		let mut dedup: std::collections::HashMap<&Vec<u8>, (u64, u32)> = std::collections::HashMap::new();
+		let mut stored: Vec<(&Vec<u8>, u64)> = vec![];
 		for ti in torder {
 			let (k, v) = tiles[ti];
 			let slot = ((k.2 % 256 - r0) as usize) * w + (k.1 % 256 - c0) as usize;
 			if o.dedup {
 				if let Some(r) = dedup.get(v) {
 					index[slot] = *r;
+					continue;
+				}
+			}
+			if o.nested_ranges && !v.is_empty() && v.len() <= 4096 {
+				// (only small blobs are searched for)
+				if let Some((off, at)) = stored.iter().filter(|(b, _)| b.len() > v.len() && b.len() <= 8192).find_map(|(b, off)| b.windows(v.len()).position(|w| w == v.as_slice()).map(|at| (*off, at))) {
+					index[slot] = (off + at as u64, v.len() as u32);
 					continue;
 				}
 			}
@@ -274,6 +297,12 @@ pub fn encode(ts: &TileSet, o: &EncOpts, rng: &mut Rng) -> Vec<u8> {
 			out.extend_from_slice(v);
 			index[slot] = r;
 			dedup.insert(v, r);
+			stored.push((v, r.0));
+		}
+		if o.gaps && rng.chance(0.3) {
+			// padding behind the last blob of the block
+			let n = rng.range(1, 64) as usize;
+			out.extend_from_slice(&rng.bytes(n));
 		}
 		let blobs_len = out.len() as u64 - block_offset;
 		let mut idx_raw = Vec::with_capacity(index.len() * 12);
